@@ -8,7 +8,7 @@ use refimpl::wire::{self, DataBody, FpUpdate, InputEvent, Rect};
 use serde::{Deserialize, Serialize};
 
 pub const LEVEL: &str = "exploration";
-pub const RULE: &str = "case = history of 1..40 steps over {pointer(x, y, button, down), key(code, down), unsendable event (RdpEvent::Bitmap), server traffic (fast-path bitmap, set-error-info)} submitted through write or try_write on an activated session with a generated user id / share id. Oracle: the reference server's strictly decoded list of slow-path input PDUs equals the submitted sendable events one to one and in order: one PDU per event, numEvents = 1, message type 0x8001 / 0x0004, exact x / y / scancode, button flags Left/Right/Middle = 0x1000/0x2000/0x4000 with DOWN (0x8000) iff down, no button = MOVE (0x0800) without button bits, RELEASE (0x8000) iff key up; MCS initiator / channel / share id as negotiated; unsendable kinds return Err and write zero bytes. button-matrix enumerates all 8 button x state combinations at boundary coordinates; all-values sends every scancode 0..=0xFFFF (press and release) and every value 0..=0xFFFF as x and as y coordinate (256 values per session, write and try_write mixed); long-histories are sessions of 3000 events with exact repetitions, interleaved server traffic and refused events; generated histories repeat the previous event 1..3 times with probability 1/6. Non-trivial = history with >= 2 sendable events; distinct by hash of the case.";
+pub const RULE: &str = "case = history of 1..40 steps over {pointer(x, y, button, down), key(code, down), unsendable event (RdpEvent::Bitmap), server traffic (fast-path bitmap, set-error-info)} submitted through write or try_write on an activated session with a generated user id / share id. Oracle: the reference server's strictly decoded list of slow-path input PDUs equals the submitted sendable events one to one and in order: one PDU per event, numEvents = 1, message type 0x8001 / 0x0004, exact x / y / scancode, button flags Left/Right/Middle = 0x1000/0x2000/0x4000 with DOWN (0x8000) iff down, no button = MOVE (0x0800) without button bits, RELEASE (0x8000) iff key up; MCS initiator / channel / share id as negotiated; unsendable kinds return Err and write zero bytes. button-matrix enumerates all 8 button x state combinations at boundary coordinates; all-values sends every scancode 0..=0xFFFF (press and release) and every value 0..=0xFFFF as x and as y coordinate (256 values per session, write and try_write mixed); after-server-updates sends every fast-path update code 0..15 (pointer position, hidden / default pointer, cached pointer ..., alone or batched after a bitmap) and then events that echo its contents (a move to exactly the position the server set, the same values as scancodes); generated histories do the same with probability; long-histories are sessions of 3000 events with exact repetitions, interleaved server traffic and refused events; generated histories repeat the previous event 1..3 times with probability 1/6. Non-trivial = history with >= 2 sendable events; distinct by hash of the case.";
 
 #[derive(Serialize, Deserialize, Hash, Clone, Debug)]
 pub enum Step {
@@ -17,6 +17,8 @@ pub enum Step {
     Unsendable { lenient: bool },
     ServerBitmap,
     ServerError(u32),
+    /// a fast-path update other than a bitmap (pointer position / hidden / default / cached / new, palette, synchronize ...), possibly batched after a bitmap
+    ServerUpdate { code: u8, body: Vec<u8>, with_bitmap: bool },
 }
 
 #[derive(Serialize, Deserialize, Hash, Clone, Debug)]
@@ -39,7 +41,7 @@ pub fn run(c: &Case) -> Outcome {
     let mut out = Outcome::new();
     let sendable = c.steps.iter().filter(|s| matches!(s, Step::Pointer { .. } | Step::Key { .. })).count();
     out.nontrivial(sendable >= 2);
-    if c.steps.iter().any(|s| matches!(s, Step::ServerBitmap | Step::ServerError(_))) {
+    if c.steps.iter().any(|s| matches!(s, Step::ServerBitmap | Step::ServerError(_) | Step::ServerUpdate { .. })) {
         out.label("interleaved-server-traffic");
     }
     if c.steps.iter().any(|s| matches!(s, Step::Unsendable { .. })) {
@@ -106,8 +108,16 @@ pub fn run(c: &Case) -> Outcome {
                     return out;
                 }
             }
-            Step::ServerBitmap | Step::ServerError(_) => {
+            Step::ServerBitmap | Step::ServerError(_) | Step::ServerUpdate { .. } => {
                 let frame = match st {
+                    Step::ServerUpdate { code, body, with_bitmap } => {
+                        let mut ups = Vec::new();
+                        if *with_bitmap {
+                            ups.push(FpUpdate::Bitmap(vec![Rect { left: 0, top: 0, right: 0, bottom: 0, width: 1, height: 1, bpp: 32, flags: 0, cd_scan_width: 0, cd_uncompressed: 0, data: vec![0; 4] }]));
+                        }
+                        ups.push(FpUpdate::Other { code: *code & 0xF, body: body.clone() });
+                        wire::fast_path_pdu(&ups, 0, false)
+                    }
                     Step::ServerBitmap => wire::fast_path_pdu(&[FpUpdate::Bitmap(vec![Rect { left: 0, top: 0, right: 1, bottom: 1, width: 2, height: 2, bpp: 32, flags: 0, cd_scan_width: 0, cd_uncompressed: 0, data: vec![0; 16] }])], 0, false),
                     Step::ServerError(code) => {
                         let s = h.borrow();
@@ -119,6 +129,8 @@ pub fn run(c: &Case) -> Outcome {
                 let (r, _) = call(|| conn.client.read(|_| ()));
                 match r {
                     Res::Ok(()) => {}
+                    // an update the client cannot decode may be answered with an error (C06/C10 territory); it must still not disturb the input path
+                    Res::Err(_) if matches!(st, Step::ServerUpdate { .. }) => {}
                     Res::Err(e) => {
                         out.fail("input:server-traffic-read-error", format!("step #{}: read failed: {}", i, e));
                         return out;
@@ -281,10 +293,40 @@ pub fn decode(s: &mut Src) -> Case {
             }
             continue;
         }
-        steps.push(match s.below(12) {
+        // an event that echoes what the server said last (pointer position, cache index ...)
+        if let Some(Step::ServerUpdate { body, .. }) = steps.iter().rev().find(|x| matches!(x, Step::ServerUpdate { .. })) {
+            if body.len() >= 4 && s.chance(100) {
+                let x = u16::from_le_bytes([body[0], body[1]]);
+                let y = u16::from_le_bytes([body[2], body[3]]);
+                steps.push(match s.below(4) {
+                    0 => Step::Key { code: x, down: s.bool(), lenient: false },
+                    1 => Step::Pointer { x, y, button: s.below(4) as u8, down: s.bool(), lenient: false },
+                    _ => Step::Pointer { x, y, button: 0, down: false, lenient: s.chance(64) },
+                });
+                continue;
+            }
+        }
+        steps.push(match s.below(13) {
             0 => Step::Unsendable { lenient: s.bool() },
             1 => Step::ServerBitmap,
             2 => Step::ServerError(s.b32()),
+            12 => {
+                let code = s.pick(&[8u8, 8, 8, 3, 5, 6, 10, 2, 9, 11, 4, 7]);
+                let body = match code {
+                    8 => {
+                        let mut b = s.b16().to_le_bytes().to_vec();
+                        b.extend_from_slice(&s.b16().to_le_bytes());
+                        b
+                    }
+                    10 => s.b16().to_le_bytes().to_vec(),
+                    3 | 5 | 6 => Vec::new(),
+                    _ => {
+                        let n = s.below(12);
+                        s.bytes(n)
+                    }
+                };
+                Step::ServerUpdate { code, body, with_bitmap: s.chance(64) }
+            }
             3 | 4 | 5 => Step::Key { code: s.b16(), down: s.bool(), lenient: s.chance(64) },
             _ => Step::Pointer { x: s.b16(), y: s.b16(), button: s.below(4) as u8, down: s.bool(), lenient: s.chance(64) },
         });
@@ -313,6 +355,38 @@ fn all_values(part: usize, parts: usize) -> impl Iterator<Item = Case> {
 }
 
 /// sessions with thousands of events (state carried from one write to the next: counters, buffers, coalescing)
+/// every kind of server update followed by events that echo its contents
+fn after_server_updates() -> Vec<Case> {
+    let mut v = Vec::new();
+    for code in 0..16u8 {
+        for (x, y) in [(0u16, 0u16), (10, 20), (0x1234, 0x0080), (65535, 65535)] {
+            for with_bitmap in [false, true] {
+                let mut body = x.to_le_bytes().to_vec();
+                body.extend_from_slice(&y.to_le_bytes());
+                let probes = |lenient: bool| {
+                    vec![
+                        Step::Pointer { x, y, button: 0, down: false, lenient },
+                        Step::Pointer { x, y, button: 0, down: true, lenient },
+                        Step::Pointer { x, y, button: 1, down: true, lenient },
+                        Step::Key { code: x, down: true, lenient },
+                        Step::Key { code: y, down: false, lenient },
+                        Step::Pointer { x: y, y: x, button: 0, down: false, lenient },
+                        Step::Pointer { x, y, button: 0, down: false, lenient },
+                    ]
+                };
+                for lenient in [false, true] {
+                    let mut steps = vec![Step::Pointer { x: 1, y: 1, button: 0, down: false, lenient: false }, Step::ServerUpdate { code, body: body.clone(), with_bitmap }];
+                    steps.extend(probes(lenient));
+                    steps.push(Step::ServerUpdate { code, body: body[..2].to_vec(), with_bitmap });
+                    steps.extend(probes(lenient));
+                    v.push(Case { steps, user_id: 1004, share_id: 0x000103EA });
+                }
+            }
+        }
+    }
+    v
+}
+
 fn long_histories() -> Vec<Case> {
     let mut v = Vec::new();
     for variant in 0..4u32 {
@@ -358,6 +432,7 @@ pub fn check(rep: &Report) {
     rep.list("button-matrix", matrix(), run);
     rep.enumerate("all-values", true, all_values, run);
     rep.list("long-histories", long_histories(), run);
+    rep.list("after-server-updates", after_server_updates(), run);
     rep.random("histories", rep.tier.n(60_000, 3_000_000), 260, decode, run);
     crate::tls::pki();
     rep.random("tls", rep.tier.n(300, 10_000), 200, decode, run_tls);
